@@ -28,6 +28,9 @@ func genCase(kind string, seed int64, prop string, idx int) *Case {
 	case strings.HasPrefix(kind, "hist:"):
 		p := profileByName(kind[len("hist:"):])
 		return &Case{Kind: kind, H: genHistory(caseRand(seed, kind, idx), p)}
+	case strings.HasPrefix(kind, "pool:"):
+		p := profileByName(kind[len("pool:"):])
+		return &Case{Kind: kind, H: genPoolHistory(caseRand(seed, kind, idx), p)}
 	}
 	if g, ok := extraGen(kind, seed, prop, idx); ok {
 		return g
@@ -96,7 +99,7 @@ func shapeOf(h *History) uint64 {
 // checkCase runs one case under all monitors.
 func checkCase(prop string, c *Case, trace bool) *CaseResult {
 	switch {
-	case strings.HasPrefix(c.Kind, "hist:") || strings.HasPrefix(c.Kind, "small"):
+	case strings.HasPrefix(c.Kind, "hist:") || strings.HasPrefix(c.Kind, "small") || strings.HasPrefix(c.Kind, "pool:"):
 		w := newWorld(c.H, true, trace)
 		if prop == "C05" {
 			w.mon.checkDepth = true
